@@ -107,7 +107,7 @@ macro_rules! c07_cauchy {
 //@ besteffort: yes
 //@ prop: C07
 //@ tier: thorough
-//@ cap: 3600
+//@ cap: 1500
 //@ funcs: Cauchy::<f64>::new; Cauchy::<f64>::sample
 //@ bounds: every accepted (median, scale); every word; g = tan(pi u) over the free-stub value set
 //@ assumes: libm::tan replaced by a free logging stub
